@@ -12,7 +12,7 @@
    uniq <existing a,b|-> <simple>       Pipeline.generate_unique_name
    derive <po|heo> <order a,b|-> <id>=M:<ty>,<ty>;<id>=E:<ty>,<ty>/<ty>;<id>=N:<ty>;<id>=S|C|O
           ty = TyKind names in prefix form joined by '.', a path is P<id>:  Map.I32.Vec.P7
-          Derive.decisions + the model's verdict  -> <id>=Y|N|D ... | closed=0|1 wsc=0|1 btree=0|1 cons=0|1   or PANIC / FUEL *)
+          Derive.decisions + the model's verdict  -> <id>=Y|N|D ... | closed=0|1 wsc=0|1 cons=0|1   or PANIC / FUEL *)
 
 let ascii_of_char (c : char) : Model.ascii =
   let n = Char.code c in
@@ -189,7 +189,7 @@ let run (line : string) : string =
        String.concat " " (List.map (fun (d, c) ->
            Printf.sprintf "%d=%s" (int_of_nat d) (match c with Model.Yes -> "Y" | Model.No -> "N" | Model.Delay -> "D")) ds)
        ^ " | closed=" ^ b (Model.closed_b items) ^ " wsc=" ^ b (Model.ws_complete_b items)
-       ^ " btree=" ^ b (Model.btree_unsupported_b tr items) ^ " cons=" ^ b v
+       ^ " cons=" ^ b v
      | Model.Panic, _ | _, Model.Panic -> "PANIC"
      | _, _ -> "FUEL")
   | _ -> failwith ("bad line " ^ line)
